@@ -248,7 +248,8 @@ theorem readLimit_enc (limit : Int) (h : limit > 0) : (encLimit limit).map readL
     | nil => exact absurd hh (Std.Decimal.natDigits_ne_nil _)
     | cons a as => rfl
   have hk : ((limit.toNat : Nat) : Int) = limit := by omega
-  simp [isText, chardata, hd, hemp, Std.Decimal.readDigits_natDigits, hk]
+  have hne : ¬ limit.toNat = 0 := by omega
+  simp [isText, chardata, hd, hemp, Std.Decimal.readDigits_natDigits, hk, hne]
 
 -- the query --------------------------------------------------------------------------------------------------------------------------
 
